@@ -230,4 +230,38 @@ theorem wmemcpy_s_ok (dest dlen src count : Nat) (st : St)
   simp [wmemcpy_s, mem_prim_move32, SIZEOF_WCHAR_T_eq, h1, hd, hd64, hs64, h2, chkDmaxMemB, h3, hs, h4, exceeds, hov,
     exec_bind, he]
 
+/-! ## with object sizes known to the library -/
+
+/-- `memmove_s` with any object-size knowledge: `dmax` within the limit / the known dest object, `slen` within
+the known source object -/
+theorem memmove_s_ok_bos (dest dmax src slen : Nat) (destbos srcbos : Bos) (st : St)
+    (hd : dest ≠ 0) (hs : src ≠ 0) (hpos : 0 < slen) (hle : slen ≤ dmax) (hmax : dmax ≤ RSIZE_MAX_MEM)
+    (hdb : memDmaxOk dmax destbos) (hsb : exceeds slen srcbos = false)
+    (hw : RW st dest dmax) (hr : RD st src slen) :
+    ∃ st', exec (memmove_s dest dmax src slen destbos srcbos) st = .ok (EOK, st') ∧
+      Moved st st' dest src slen := by
+  have hlt := RSIZE_MAX_MEM_lt_U32'
+  have hn : slen % U32 = slen := Nat.mod_eq_of_lt (by omega)
+  obtain ⟨st', he, hm⟩ := mem_prim_move_ok dest src slen st (by rw [hn]; exact hpos)
+    (by rw [hn]; exact hw.sub (Nat.le_refl _) (by omega)) (by rw [hn]; exact hr)
+  rw [hn] at hm
+  refine ⟨st', ?_, hm⟩
+  have h1 : slen ≠ 0 := by omega
+  have h2 : dmax ≠ 0 := by omega
+  have h4 : ¬ slen > dmax := by omega
+  rcases chkDmaxMemB_spec dmax destbos (fun _ =>
+      if src = 0 then do handleMemErrorB 1 dest dmax ESNULLP; pure ESNULLP
+      else if slen > dmax then do
+        let error := if slen > RSIZE_MAX_MEM then ESLEMAX else ESNOSPC
+        handleMemErrorB 1 dest dmax error
+        pure error
+      else if exceeds slen srcbos then failM EOVERFLOW
+      else do
+        mem_prim_move dest src slen
+        pure EOK) st with ⟨_, hk⟩ | ⟨hbad, _⟩
+  · simp only [memmove_s, if_neg h1, if_neg hd, if_neg h2]
+    rw [hk]
+    simp [hs, h4, hsb, exec_bind, he]
+  · exact absurd hdb hbad
+
 end SafeC
